@@ -607,6 +607,8 @@ pub async fn broadcast_changes(
     ts: Timestamp,
 ) -> Result<(), BroadcastError> {
     let actor_id = agent.actor_id();
+    #[cfg(feature = "verif-hooks")]
+    crate::verif::apoint("bcast.before_read").await;
     let conn = agent.pool().read().await?;
     trace!("got conn for broadcast");
 
